@@ -84,7 +84,8 @@ def verify_steps(root, s, namer, rng, subs, want=('lib', 'keep', 'cli', 'clik'),
 
 
 def fm_last(last):
-    return -1 if last is None else last
+    # same unit as the projection's mt: tenths of a second since BASE_MTIME
+    return -1 if last is None else int(round(last * 10))
 
 
 def cli_end(o, keep=False):
@@ -223,7 +224,7 @@ def one_scenario(args):
         odd_subs = [m['p'] for m in muts if m.get('m') in ('retype_dir', 'retype_file') and m.get('p')]
         if odd_subs and rng.random() < 0.8:
             subs = subs + [rng.choice(odd_subs)]
-        lasts = [None] if rng.random() < 0.6 else [None, rng.choice([5, 50, 100, 119, 120, 600])]
+        lasts = [None] if rng.random() < 0.5 else [None, rng.choice([5, 50, 100, 119, 119.5, 119.5, 119.5, 120, 120.5, 600])]
         meta = {'seed': seed, 'idx': idx, 'muts': muts}
         want = opts.get('want', ('lib', 'keep', 'cli', 'clik'))
         if any(os.path.basename(m.get('p', '')).startswith('Manifest') for m in muts if m.get('m') == 'stray'):
@@ -236,6 +237,42 @@ def one_scenario(args):
             paths = rng.sample(cands, min(len(cands), 3)) if cands else []
             recs += lookup_steps(root, s, namer, rng, paths, meta=meta)
         return recs
+    finally:
+        shutil.rmtree(root, ignore_errors=True)
+
+
+def last_mtime_family(args):
+    """Directed family for the last_mtime clause of C01: small trees, 1-3 listed files altered (same size,
+    other size, or only touched) with modification times placed around last_mtime at sub-second
+    distances; only files NOT newer than last_mtime (and of unchanged size) may be skipped."""
+    seed, idx, opts = args
+    rng = random.Random('lastmt-%d-%d' % (seed, idx))
+    root = tlc.scratch_dir('vlm')
+    try:
+        L = gen.random_layout(rng, depth=2, maxfiles=6, odd=0, links=False)
+        L.write(root)
+        last = rng.choice([100, 119, 119.5, 119.5, 120, 120.25])
+        files = [p for p in sorted(L.files) if os.path.isfile(os.path.join(root, p)) and L.files[p]]
+        muts = []
+        for p in rng.sample(files, min(len(files), rng.randrange(1, 4))):
+            fp = os.path.join(root, p)
+            how = rng.choice(['same', 'same', 'same', 'size', 'touch'])
+            data = open(fp, 'rb').read()
+            if how == 'same':
+                k = rng.randrange(len(data))
+                data = data[:k] + bytes([data[k] ^ 1]) + data[k + 1:]
+            elif how == 'size':
+                data += b'+'
+            with open(fp, 'wb') as f:
+                f.write(data)
+            mt = fm.BASE_MTIME + last + rng.choice([-20, -0.5, -0.2, 0, 0.2, 0.3, 0.4, 0.5, 0.75, 20])
+            ns = int(round(mt * 10)) * 10**8          # exact tenths of a second
+            os.utime(fp, ns=(ns, ns))
+            muts.append({'m': 'lastmt_' + how, 'p': p})
+        namer = fm.Namer()
+        s = fm.project(root, 'Manifest', namer=namer)
+        return verify_steps(root, s, namer, rng, [''], want=('lib', 'keep'), lasts=[last],
+                            meta={'seed': seed, 'idx': idx, 'muts': muts, 'last': last})
     finally:
         shutil.rmtree(root, ignore_errors=True)
 
@@ -264,7 +301,8 @@ def _prep_tlc_scenario(scn):
 
 
 PRED = {'ok': ('ok', ''), 'mismatch': ('fail', 'ManifestMismatch'),
-        'incompatible': ('fail', 'ManifestIncompatibleEntry'), 'syntax': ('fail', 'ManifestSyntaxError')}
+        'incompatible': ('fail', 'ManifestIncompatibleEntry'), 'syntax': ('fail', 'ManifestSyntaxError'),
+        'oserror': ('oserror', None)}
 
 
 def replay_behaviour(args):
@@ -289,8 +327,8 @@ def replay_behaviour(args):
             ev = r['ev']
             pe, px = PRED.get(beh['result'], ('?', '?'))
             drift = []
-            if not beh['keep']:
-                if (ev['end'], ev['exc']) != (pe, px):
+            if not beh['keep'] or beh['result'] in ('oserror', 'incompatible', 'syntax'):
+                if ev['end'] != pe or (px is not None and ev['exc'] != px):
                     drift.append('result:%s/%s' % (beh['result'], ev['exc'] or ev['end']))
             elif beh['result'] == 'ok':
                 want_rep = sorted(conc.path(p) for p in beh['reported'])
@@ -334,7 +372,8 @@ def same_loader_steps(root, s, namer, paths, meta=None):
     if obs['end'] != 'ok':
         return recs
     gem.call(ld.assert_directory_verifies, '')          # outcome judged elsewhere; may raise
-    for path in paths:
+    # every question twice: a failure must not leave the loader trusting what it just rejected
+    for path in list(paths) + list(paths):
         for api in ('find_path_entry', 'verify_path', 'assert_path_verifies'):
             obs, r = gem.call(getattr(ld, api), path)
             ret, res = True, []
@@ -355,6 +394,9 @@ def one_tamper(args):
     root = tlc.scratch_dir('vc')
     try:
         depth = rng.randrange(1, 6)
+        # "same-size attack": plain Manifests, weaker duplicate references listed first, a content
+        # change that keeps every size - a tampered Manifest then satisfies a size-only reference
+        ssz = rng.random() < 0.25
         L = gen.Layout(rng)
         L.mf['Manifest'] = []
         dirs = ['']
@@ -364,7 +406,7 @@ def one_tamper(args):
         L.dirs = list(dirs)
         level_mf = {0: 'Manifest'}
         for k in range(1, depth + 1):
-            comp = rng.choice(gen.COMPS)
+            comp = 'plain' if ssz else rng.choice(gen.COMPS)
             mp = dirs[k] + '/Manifest' + ('' if comp == 'plain' else '.' + comp)
             L.mf[mp] = []
             level_mf[k] = mp
@@ -379,6 +421,11 @@ def one_tamper(args):
                     L.mf[parent].append({'tag': 'MANIFEST', 'path': L.rel(xp, parent), 'size': 0,
                                          'ck': {'SHA256': ''}, 'ref': xp})
                     parent = xp
+            if rng.random() < (0.8 if ssz else 0.3):
+                # a second, weaker reference (size only, or another single hash) listed first: EVERY
+                # entry recorded for the sub-Manifest must hold
+                L.mf[parent].append({'tag': 'MANIFEST', 'path': L.rel(mp, parent), 'size': 0,
+                                     'ck': {}, 'sizeonly': True, 'ref': mp})
             L.mf[parent].append({'tag': 'MANIFEST', 'path': L.rel(mp, parent), 'size': 0,
                                  'ck': dict((h, '') for h in rng.choice(gen.HASHSETS[:4])), 'ref': mp})
         pal = gen.palette(rng)
@@ -401,12 +448,19 @@ def one_tamper(args):
         if rng.random() < 0.15:
             k = 0                                # control: full recomputation incl. top => consistent
         kind = rng.choice(['change', 'add', 'remove', 'dist', 'none'])
+        if ssz:
+            kind = 'change'
         mp = level_mf[j]
         here = [p for p in L.files if os.path.dirname(p) == dirs[j]]
         target = None
         if kind == 'change' and here:
             target = rng.choice(here)
             newdata = rng.choice([x for x in pal if x != L.files[target]])
+            if (ssz or rng.random() < 0.5) and L.files[target]:
+                # same length: the recomputed Manifests keep their sizes too
+                newdata = bytes((b ^ 1) if 64 < b < 127 else b for b in L.files[target])
+                if newdata == L.files[target]:
+                    newdata = L.files[target][::-1]
             with open(os.path.join(root, target), 'wb') as f:
                 f.write(newdata)
             for e in L.mf[mp]:
@@ -439,7 +493,7 @@ def one_tamper(args):
             L.write_manifests(root, only=only)
         namer = fm.Namer()
         s = fm.project(root, 'Manifest', namer=namer)
-        meta = {'seed': seed, 'idx': idx, 'depth': depth, 'j': j, 'k': k, 'kind': kind, 'target': target}
+        meta = {'seed': seed, 'idx': idx, 'depth': depth, 'j': j, 'k': k, 'kind': kind, 'target': target, 'ssz': ssz}
         subs = ['', dirs[rng.randrange(0, depth + 1)]]
         recs = verify_steps(root, s, namer, rng, subs, want=('lib', 'keep'), meta=meta)
         paths = [p for p in [target, rng.choice(sorted(L.files)) if L.files else None] if p and p != 'dist']
